@@ -12,6 +12,8 @@ _SEEN = set()
 ATIME_NS, MTIME_NS = 1300000000111222333, 1200000000444555666
 OLD_MTIME_NS = 1100000000000000007
 PLAIN = b"attrs payload\n" * 40
+# how the (decompressed) data ends: in data, in all-zero 8 KiB blocks after data, or nothing but such blocks
+PLAINS = {"data": PLAIN, "hole": (b"\x01attrs block \xff" * 512)[:8192] + bytes(16384), "allhole": bytes(16384)}
 OLD = b"OLD TARGET CONTENT\n"
 
 def make_scenarios(rng, rounds, mode_pool):
@@ -60,6 +62,23 @@ def make_scenarios(rng, rounds, mode_pool):
                          uidSame=True, gidSame=True, dstKind="none", nameOK=True, payloadOK=True, ownOK=True, grpOK=True, chmodOK=True, root=True)
                 x.update(invocation(x, rng, prog=prog, place=place))
                 sc.append(x)
+        plain_reg = dict(force=False, stdout=False, nowarn=False, quiet=0, kind="reg", nlink=1, uidSame=True, gidSame=True, dstKind="none",
+                         payloadOK=True, ownOK=True, grpOK=True, chmodOK=True, root=True)
+        # how the data ends x --no-sparse x operation: a hole pending at the end must not cost the target its timestamps
+        for tail in ("hole", "allhole", "data"):
+            for ns in (False, True):
+                for opmode in ("decompress", "compress"):
+                    x = dict(plain_reg, id=len(sc), opmode=opmode, keep=rng.random() < 0.5, smode=rng.choice([0o644, 0o600]), nameOK=True,
+                             tail=tail, nosparse=ns, via="cmd", stem="f")
+                    x.update(invocation(x, rng, prog="xz"))
+                    sc.append(x)
+        # where the name comes from x names that look special: "-" is standard input only as a command-line operand
+        for via in ("cmd", "files", "files0", "files_stdin"):
+            for stem in ("-", "--", "-k", "f"):
+                for opmode, ok in (("compress", True), ("decompress", True), ("decompress", False)):
+                    x = dict(plain_reg, id=len(sc), opmode=opmode, keep=rng.random() < 0.3, smode=0o644, nameOK=ok, via=via, stem=stem, tail="data")
+                    x.update(invocation(x, rng, prog="xz"))
+                    sc.append(x)
     return sc
 
 CATS = ("xzcat", "lzcat")
@@ -87,6 +106,7 @@ def invocation(sc, rng, prog=None, place=None):
     if sc["force"]: toks.append({"o": "f"})
     if sc["stdout"] and (prog not in CATS or rng.random() < 0.2): toks.append({"o": "c"})
     if sc["nowarn"]: toks.append({"o": "Q"})
+    if sc.get("nosparse"): toks.append({"o": "n"})
     toks += [{"o": "q"}] * sc["quiet"]
     fmt = "lzma" if prog in ("lzma", "unlzma", "lzcat") else "auto"
     if rng.random() < 0.25:
@@ -112,7 +132,13 @@ def invocation(sc, rng, prog=None, place=None):
         name = "f" if sc["nameOK"] else "f" + (custom if custom and rng.random() < 0.5 else nat)
     else:
         name = ("f" + (custom if custom and rng.random() < 0.5 else rng.choice([nat, ".txz", ".lz"]))) if sc["nameOK"] else rng.choice(["f", "f.bar"])
-    return dict(prog=prog, dflt=src["dflt"], xzopt=src["xzopt"], cmd=src["cmd"], srcName=list(name))
+    # where the name comes from, and names that look like options / like "standard input"
+    via = sc.get("via") or rng.choice(["cmd"] * 7 + ["files", "files0", "files_stdin"])
+    stem = sc.get("stem") or (rng.choice(["-", "--", "-k", "-S"]) if rng.random() < 0.12 else "f")
+    if stem != "f":
+        name = stem + name[1:]
+    return dict(prog=prog, dflt=src["dflt"], xzopt=src["xzopt"], cmd=src["cmd"], srcName=list(name), via=via,
+                tail=sc.get("tail") or rng.choice(["data", "data", "hole", "hole", "allhole"]))
 
 def tok_args(toks):
     out = []
@@ -121,6 +147,8 @@ def tok_args(toks):
             out.append("--suffix=" + "".join(t["v"]))
         elif t["o"] == "F":
             out.append("--format=" + t["v"])
+        elif t["o"] == "n":
+            out.append("--no-sparse")
         else:
             out.append("-" + t["o"])
     return out
@@ -131,6 +159,18 @@ def parse_strace(path, src, dst):
     """-> list of abstract calls on src / dst and attribute calls on the target descriptor."""
     calls = []
     dfd = None
+    grp = []               # consecutive write / lseek calls on the target descriptor
+    def flush():
+        if not grp:
+            return
+        g = list(grp); del grp[:]
+        fin = len(g) >= 2 and g[-2][0] == "l" and g[-1] == ("w", 1)       # lseek(SEEK_CUR) + one byte: the pending hole
+        if fin:
+            g = g[:-2]
+        if g:
+            calls.append(dict(call="data_dst"))
+        if fin:
+            calls.append(dict(call="finish_sparse"))
     qs, qd = b'"' + src + b'"', b'"' + dst + b'"'
     for raw in open(path, "rb").read().split(b"\n"):
         m = LINE.match(raw)
@@ -138,6 +178,12 @@ def parse_strace(path, src, dst):
             continue
         name, args, ret = m.group(2).decode(), m.group(3), m.group(4)
         ok = ret not in (b"-1", b"?")
+        if name in ("write", "lseek"):
+            a0 = args.split(b",")[0].strip()
+            if dfd is not None and a0 == dfd and ok:
+                grp.append(("w", int(ret)) if name == "write" else ("l", int(ret)))
+            continue
+        before = len(calls)
         if name in ("openat", "open"):
             if qs in args and b"O_RDONLY" in args and b"O_DIRECTORY" not in args:
                 calls.append(dict(call="open_src", nofollow=b"O_NOFOLLOW" in args))
@@ -170,6 +216,11 @@ def parse_strace(path, src, dst):
             ts = re.findall(rb"tv_sec=(\d+), tv_nsec=(\d+)", args)
             calls.append(dict(call="utimens", fd=args.split(b",")[0].strip(),
                               times=[int(s) * 10**9 + int(n) for s, n in ts]))
+        if len(calls) > before and grp:
+            # a call of interest ends the run of data calls that preceded it
+            new = calls[before:]; del calls[before:]
+            flush(); calls.extend(new)
+    flush()
     return calls, dfd
 
 def _feed_fifo(path, data, proc):
@@ -196,13 +247,17 @@ def run_scenario(ctx, bins, sc, pred, payloads, idx):
     eff = pred["eff"]
     sc = dict(sc, opmode=eff["mode"], keep=eff["keep"], force=eff["force"], stdout=eff["stdout"], nowarn=eff["nowarn"],
               quiet=eff["quiet"], nameOK=pred["nameOK"])
+    stdin_src = pred["stdinSrc"]
+    if stdin_src:
+        sc["stdout"] = True
     comp = sc["opmode"] == "compress"
+    plain = PLAINS[sc["tail"]]
     src = "".join(sc["srcName"])
     dst = "".join(pred["dstName"]) if pred["nameOK"] else src + (".xz" if comp else ".out")
     if comp:
-        data = PLAIN
+        data = plain
     else:
-        data = payloads["lzma" if eff["fmt"] == "lzma" else "xz"] if sc["payloadOK"] else b"this is not a compressed file at all\n" * 3
+        data = payloads[("lzma" if eff["fmt"] == "lzma" else "xz", sc["tail"])] if sc["payloadOK"] else b"this is not a compressed file at all\n" * 3
     sp, dp = os.path.join(d, src), os.path.join(d, dst)
     real = sp            # the inode that carries mode/owner/times
     kind = sc["kind"]
@@ -247,7 +302,7 @@ def run_scenario(ctx, bins, sc, pred, payloads, idx):
         os.mkdir(dp)
     before_src, before_real, before_dst = U.snap(sp), (U.snap(real) if real else None), U.snap(dp)
     argv = ["strace", "-f", "-qq", "-o", os.path.join(d, "strace.log"),
-            "-e", "trace=openat,open,unlink,unlinkat,fchown,fchmod,utimensat,newfstatat,lstat,stat"]
+            "-s", "2", "-e", "trace=openat,open,unlink,unlinkat,fchown,fchmod,utimensat,newfstatat,lstat,stat,write,lseek"]
     # the first fchown sets the owner, the second (if the groups differ) the group
     if nonroot:
         pass                                  # the kernel refuses by itself
@@ -259,7 +314,22 @@ def run_scenario(ctx, bins, sc, pred, payloads, idx):
         argv += ["-e", "inject=fchown:error=EPERM:when=2"]
     if not sc["chmodOK"]:
         argv += ["-e", "inject=fchmod:error=EPERM:when=1"]
-    argv += [xz_run, "-0"] + tok_args(sc["cmd"]) + ["--", src]
+    via = sc["via"]
+    stdin_data = None
+    if via == "cmd":
+        argv += [xz_run, "-0"] + tok_args(sc["cmd"]) + ["--", src]
+        if stdin_src:
+            stdin_data = data
+    else:
+        sep = b"\0" if via == "files0" else b"\n"
+        lst = sep + src.encode() + sep + sep
+        if via == "files_stdin":
+            argv += [xz_run, "-0"] + tok_args(sc["cmd"]) + ["--files"]
+            stdin_data = lst
+        else:
+            with open(os.path.join(d, "names.list"), "wb") as f:
+                f.write(lst)
+            argv += [xz_run, "-0"] + tok_args(sc["cmd"]) + ["--files0=names.list" if via == "files0" else "--files=names.list"]
     env = U.tool_env()
     if sc["dflt"]:
         env["XZ_DEFAULTS"] = " ".join(tok_args(sc["dflt"]))
@@ -269,13 +339,13 @@ def run_scenario(ctx, bins, sc, pred, payloads, idx):
     try:
         def drop():
             os.setgroups([]); os.setgid(NOBODY); os.setuid(NOBODY)
-        p = subprocess.Popen(argv, cwd=d, stdin=subprocess.DEVNULL, stdout=subprocess.PIPE, stderr=subprocess.PIPE,
+        p = subprocess.Popen(argv, cwd=d, stdin=subprocess.PIPE if stdin_data is not None else subprocess.DEVNULL, stdout=subprocess.PIPE, stderr=subprocess.PIPE,
                              env=env, preexec_fn=drop if nonroot else None)
         th = None
         if kind == "fifo":
             th = threading.Thread(target=_feed_fifo, args=(sp, data, p)); th.start()
         try:
-            out, err = p.communicate(timeout=30)
+            out, err = p.communicate(input=stdin_data, timeout=30)
         except subprocess.TimeoutExpired:
             p.kill(); p.communicate()
             with _LOCK:
@@ -288,7 +358,8 @@ def run_scenario(ctx, bins, sc, pred, payloads, idx):
         os.umask(old_umask)
     calls, dfd = parse_strace(os.path.join(d, "strace.log"), src.encode(), dst.encode())
     label = "%s:%s%s%s%s%s%s" % (sc["opmode"], kind, ":k" if sc["keep"] else "", ":f" if sc["force"] else "", ":c" if sc["stdout"] else "",
-                                 "" if sc["prog"] == "xz" else ":as_" + sc["prog"], ":env" if (sc["dflt"] or sc["xzopt"]) else "")
+                                 "" if sc["prog"] == "xz" else ":as_" + sc["prog"], ":env" if (sc["dflt"] or sc["xzopt"]) else "") \
+        + ("" if via == "cmd" else ":" + via) + (":stdin" if stdin_src else "") + ("" if sc["tail"] == "data" else ":" + sc["tail"])
     def bad(what, detail):
         with _LOCK:
             if ("files:%s:%s" % (what, label)) in _SEEN:
@@ -364,11 +435,11 @@ def run_scenario(ctx, bins, sc, pred, payloads, idx):
             content = open(dp, "rb").read()
             if comp:
                 ret, dec, _ = U.libdecode(content, "auto")
-                if ret != "STREAM_END" or dec != PLAIN:
+                if ret != "STREAM_END" or dec != plain:
                     bad("target_content", "compressed target does not decode to the source (%s)" % ret)
-            elif content != PLAIN:
+            elif content != plain:
                 bad("target_content", "decompressed target differs from the plain text")
-    others = sorted(x for x in os.listdir(d) if x not in (src, dst, "strace.log", "other_link", "real_file"))
+    others = sorted(x for x in os.listdir(d) if x not in (src, dst, "strace.log", "other_link", "real_file", "names.list"))
     if others:
         bad("stray_files", "unexpected files created: %r" % others)
     # stdout carries the data exactly when the model reaches coding with --stdout
@@ -379,7 +450,7 @@ def run_scenario(ctx, bins, sc, pred, payloads, idx):
                 ret, dec, _ = U.libdecode(out, "auto")
                 okc = ret == "STREAM_END" and dec == data
             else:
-                okc = out == (PLAIN if sc["payloadOK"] else data)
+                okc = out == (plain if sc["payloadOK"] else data)
             if not okc:
                 bad("stdout_content", "--stdout output is not the expected data (%d bytes)" % len(out))
         elif out:
